@@ -51,8 +51,26 @@ def run(tier):
                         vals.append(vv)
                         body = G.render(rng, v, cfg, rich=False)
                         docs.append((b"[" + b" " * nsp + body + b" 1]") if wrap == "vec2" else (b"{:title" + b" " * (nsp + 1) + body + b"}"))
+        # experimental flag: text blocks of 1..40 and more source lines (the reader keeps line records in a buffer that grows at 16, 32, ...)
+        if cfg in ("exp", "both"):
+            for nl in list(range(1, 41)) + [63, 64, 65, 100, 129, 300]:
+                for ind in (0, 2):
+                    body = b"".join(b" " * ind + (b"line %03d of the block" % i) + b"\n" for i in range(nl))
+                    text = b"".join((b"line %03d of the block" % i) + b"\n" for i in range(nl))
+                    for closer, txt in ((b" " * ind + b'"""', text), (None, text[:-1])):
+                        src = b'"""\n' + (body if closer is not None else body[:-1]) + (closer if closer is not None else b'"""')
+                        vals.append(("vec", [("int", 1), ("str", txt), ("kw", None, "after")]))
+                        docs.append(b"[1 " + src + b" :after]")
         # Clojure flag: a namespaced map denotes its explicit expansion (only the namespace `_` is the opt-out marker)
         if cfg in ("clj", "both"):
+            # keys of every kind inside a namespaced map: only top-level keyword / symbol keys are qualified, nothing inside a composite key
+            for doc, val in ((b"#:a{[:x y] 1}", ("map", [(("vec", [("kw", None, "x"), ("sym", None, "y")]), ("int", 1))])),
+                             (b"{:m #:cfg{:id 7, #{:_/t} true}}", ("map", [(("kw", None, "m"), ("map", [(("kw", "cfg", "id"), ("int", 7)), (("set", [("kw", "_", "t")]), ("bool", True))]))])),
+                             (b"#:a{(b :c) 1 d {:e f}}", ("map", [(("list", [("sym", None, "b"), ("kw", None, "c")]), ("int", 1)), (("sym", "a", "d"), ("map", [(("kw", None, "e"), ("sym", None, "f"))]))])),
+                             (b"#:a{#:b{:y 1} 2}", ("map", [(("map", [(("kw", "b", "y"), ("int", 1))]), ("int", 2))])),
+                             (b"#:a{#t :k 1}", ("map", [(("tagged", "t", ("kw", None, "k")), ("int", 1))]))):
+                vals.append(val)
+                docs.append(doc)
             for pfx in ("user", "a.b", "_p"):
                 ents = [((":name", ("kw", pfx, "name"))), (":_internal/id", ("kw", "_internal", "id")), ("_impl/state", ("sym", "_impl", "state")),
                         (":_/plain", ("kw", None, "plain")), ("_/bare", ("sym", None, "bare")), ("sym", ("sym", pfx, "sym")), (":o/k", ("kw", "o", "k")),
@@ -79,6 +97,8 @@ def run(tier):
         for i in diffs[:5]:
             rep.broken_obligation("correspondence/read", "model %r vs code %r on %r" % ((model[i] or "")[:200], (impl[i] or "")[:200], docs[i][:200]), False,
                                   extra={"config": cfg, "input_hex": C.hexs(docs[i]), "model": model[i], "code": impl[i]})
+        if U.grammar_verdicts(rep, cfg, docs, impl, model, diffs, ("well-formed-rejected", "read-differently")):
+            found = True
         for i, a in enumerate(impl):
             if a is None:
                 continue
@@ -163,6 +183,8 @@ def run(tier):
             rep.count("grammar/%s/%s" % (which, cfg), len(gdocs))
             for i in diffs[:5]:
                 rep.broken_obligation("correspondence/grammar", "model %r vs code %r on %r" % ((model[i] or "")[:200], (impl[i] or "")[:200], gdocs[i][:200]), False)
+            if U.grammar_verdicts(rep, cfg, gdocs, impl, model, diffs, ("well-formed-rejected", "read-differently")):
+                found = True
             for i, a in enumerate(impl):
                 if a is None or a.startswith("ok "):
                     continue
